@@ -40,6 +40,9 @@ fn make_keys(kt: &str, rng: &mut Rng, n: usize) -> Vec<Vec<u8>> {
     let mut v: Vec<Vec<u8>> = Vec::new();
     while v.len() < n {
         let k: Vec<u8> = match kt {
+            // (the integer key types also accept byte strings of other lengths: every sixth key is one)
+            "u64" if v.len() % 6 == 5 => util::gen_bytes([1usize, 3, 7, 12][v.len() % 4], rng.next() as u32, 0),
+            "i64" if v.len() % 6 == 5 => util::gen_bytes([2usize, 4, 7, 16][v.len() % 4], rng.next() as u32, 0),
             "u64" => (rng.next() >> rng.below(60)).to_le_bytes().to_vec(),
             "i64" => ((rng.next() >> rng.below(60)) as i64).wrapping_neg().to_le_bytes().to_vec(),
             "vu64" => {
@@ -86,13 +89,13 @@ impl<K: abyssiniandb::DbMapKeyType + for<'a> From<&'a [u8]>> M for abyssiniandb:
     }
 }
 
-fn open(db: &abyssiniandb::filedb::FileDb, kt: &str, p: FileDbParams) -> Box<dyn M> {
+fn open(db: &abyssiniandb::filedb::FileDb, kt: &str, name: &str, p: FileDbParams) -> Box<dyn M> {
     match kt {
-        "bytes" => Box::new(db.db_map_bytes_with_params("m", p).unwrap()),
-        "string" => Box::new(db.db_map_string_with_params("m", p).unwrap()),
-        "u64" => Box::new(db.db_map_u64_with_params("m", p).unwrap()),
-        "i64" => Box::new(db.db_map_i64_with_params("m", p).unwrap()),
-        "vu64" => Box::new(db.db_map_vu64_with_params("m", p).unwrap()),
+        "bytes" => Box::new(db.db_map_bytes_with_params(name, p).unwrap()),
+        "string" => Box::new(db.db_map_string_with_params(name, p).unwrap()),
+        "u64" => Box::new(db.db_map_u64_with_params(name, p).unwrap()),
+        "i64" => Box::new(db.db_map_i64_with_params(name, p).unwrap()),
+        "vu64" => Box::new(db.db_map_vu64_with_params(name, p).unwrap()),
         _ => unreachable!(),
     }
 }
@@ -106,7 +109,7 @@ fn sig(kt: &str) -> [u8; 8] {
     }
 }
 
-fn generate(out: &Path, kt: &str, buckets: HashBucketsParam, tag: &str, seed: u64) {
+fn generate(out: &Path, kt: &str, buckets: HashBucketsParam, tag: &str, seed: u64, name: &str) {
     let dir = out.join(format!("{kt}_{tag}"));
     let _ = std::fs::remove_dir_all(&dir);
     let mut rng = Rng::new(seed);
@@ -115,7 +118,7 @@ fn generate(out: &Path, kt: &str, buckets: HashBucketsParam, tag: &str, seed: u6
     let keys = make_keys(kt, &mut rng, nkeys + 10);
     {
         let db = abyssiniandb::open_file(&dir).unwrap();
-        let mut m = open(&db, kt, FileDbParams { buckets_size: buckets.clone(), ..Default::default() });
+        let mut m = open(&db, kt, name, FileDbParams { buckets_size: buckets.clone(), ..Default::default() });
         let small = [0usize, 1, 13, 14, 15, 22, 23, 30, 31, 46, 47, 62, 100, 126, 127, 250, 253, 254, 500, 893, 894];
         // inserts: mostly small values, a few large ones (>= 1024 byte slots), sizes ascending so that
         // a freed large slot is never reused by a smaller request
@@ -151,7 +154,7 @@ fn generate(out: &Path, kt: &str, buckets: HashBucketsParam, tag: &str, seed: u6
         }
     } // all handles dropped: buffers are written by Drop
     // verify with the independent decoder before keeping the image
-    let img = decoder::Image::read(&dir, "m").unwrap();
+    let img = decoder::Image::read(&dir, name).unwrap();
     let dec = decoder::decode(&img, Some(sig(kt)));
     assert!(dec.problems.is_empty(), "{kt}_{tag}: {:?}", dec.problems.first());
     assert!(decoder::contents_mismatch(&img, &dec, &model).is_none());
@@ -160,6 +163,7 @@ fn generate(out: &Path, kt: &str, buckets: HashBucketsParam, tag: &str, seed: u6
     // expected contents
     let mut t = String::new();
     t.push_str(&format!("# golden image written by the pinned release (4b82afd); kt={kt} table={} entries={} free_slots={free} max_chain={} large_used={large_used}\n", dec.n, model.len(), dec.max_chain));
+    t.push_str(&format!("name {name}\n"));
     for (k, v) in model.iter() {
         t.push_str(&format!("kv {} {}\n", util::hex(k), util::hex(v)));
     }
@@ -175,8 +179,8 @@ fn generate(out: &Path, kt: &str, buckets: HashBucketsParam, tag: &str, seed: u6
                 s.push_str(&format!("page {} {}\n", i * 4096, util::hex(page)));
             }
         }
-        std::fs::write(dir.join("m.htx.sparse"), s).unwrap();
-        std::fs::remove_file(dir.join("m.htx")).unwrap();
+        std::fs::write(dir.join(format!("{name}.htx.sparse")), s).unwrap();
+        std::fs::remove_file(dir.join(format!("{name}.htx"))).unwrap();
     }
     println!("{kt}_{tag}: table {} entries {} free slots {free} max chain {} large used {large_used} key file {} val file {}", dec.n, model.len(), dec.max_chain, img.key.len(), img.val.len());
 }
@@ -188,8 +192,11 @@ fn main() {
     for kt in ["bytes", "string", "u64", "i64", "vu64"] {
         for (tag, b) in [("t8", HashBucketsParam::BucketsSize(8)), ("t128", HashBucketsParam::Capacity(100)), ("t4096", HashBucketsParam::BucketsSize(4096))] {
             seed += 1;
-            generate(out, kt, b, tag, seed);
+            generate(out, kt, b, tag, seed, "m");
         }
     }
-    generate(out, "bytes", HashBucketsParam::Default, "default", 99);
+    generate(out, "bytes", HashBucketsParam::Default, "default", 99, "m");
+    // map names with dots (the part behind the last dot is not a file extension)
+    generate(out, "string", HashBucketsParam::BucketsSize(8), "dotted", 77, "rel.2024");
+    generate(out, "bytes", HashBucketsParam::BucketsSize(64), "dotted", 78, "m.v1.bak");
 }
